@@ -826,3 +826,11 @@ twin("C19-T8", "C19", "min result in a local first", FP, "vector_min", "return r
 mutant("C18-M32", "C18", "R18f", "cascade constituents accepted when they are any framework name (seeded C18d)", FW, "ProjectFramework._validate_cascades", "component.strip() in self.comps.index or component.strip() in self.characs.index", "component.strip() in self")
 mutant("C01-M30", "C01", "R01g", "timed compartment lookup collapses the time axis (seeded C20d)", M, "TimedCompartment.__getitem__", "return self._vals[:, ti].sum(axis=0)", "return self._vals[:, ti].sum()")
 mutant("C20-M25", "C20", "R01g", "timed compartment lookup collapses the time axis (seeded C20d), seen from C20", M, "TimedCompartment.__getitem__", "return self._vals[:, ti].sum(axis=0)", "return self._vals[:, ti].sum()")
+
+# ---- round 7
+PS = "atomica/parameters.py"
+mutant("C06-M43", "C06", "R06w", "one copy of the 'all' row shared by every population (seeded C06e)", PS, "ParameterSet.__init__", '            for k in self.pop_names:\n                if k in tdve.ts:\n                    ts[k] = tdve.ts[k].copy()\n                elif "all" in tdve.ts:\n                    ts[k] = tdve.ts["all"].copy()', '            fallback = tdve.ts["all"].copy() if "all" in tdve.ts else None\n            for k in self.pop_names:\n                if k in tdve.ts:\n                    ts[k] = tdve.ts[k].copy()\n                elif fallback is not None:\n                    ts[k] = fallback')
+mutant("C06-M44", "C06", "R06l", "the 'all' row stored without a copy", PS, "ParameterSet.__init__", 'ts[k] = tdve.ts["all"].copy()', 'ts[k] = tdve.ts["all"]')
+twin("C06-T12", "C06", "per-population copy through a local", PS, "ParameterSet.__init__", "                    ts[k] = tdve.ts[k].copy()", "                    series = tdve.ts[k].copy()\n                    ts[k] = series")
+twin("C06-T13", "C06", "per-population copy with sc.dcp", PS, "ParameterSet.__init__", 'ts[k] = tdve.ts["All"].copy()', 'ts[k] = sc.dcp(tdve.ts["All"])')
+mutant("C07-M32", "C07", "R01g", "initial occupants spread by dt / duration (seeded C07e)", M, "TimedCompartment.__setitem__", "value.reshape((1, -1)) / (self._vals.shape[0] * np.ones((self._vals.shape[0], 1)))", "value.reshape((1, -1)) * 0.25 * np.ones((self._vals.shape[0], 1))")
